@@ -35,6 +35,7 @@ template<class Cfg> ModelTraits backend_traits() {
 	T.dmax          = Cfg::dmax;
 	T.static_arrays = Cfg::static_arrays;
 	T.throwing_move = ET::throwing_move;
+	T.always_equal  = Cfg::always_equal;
 	return T;
 }
 
@@ -51,6 +52,7 @@ struct SimCfg {
 	static constexpr bool serialization = Ser;
 	static constexpr bool mpi = Mpi;
 	static constexpr bool default_init = AC::default_init;
+	static constexpr bool always_equal = AC::always_equal;
 	static auto make_alloc(int arena) -> alloc { return alloc{arena}; }
 	static int  arena_of(alloc const& a) { return a.arena; }
 	static void setup() {}
